@@ -71,7 +71,7 @@ fn gen_case(rng: &mut Rng) -> Case {
         next_id = next_id.wrapping_add(1);
         let tag = (d as u32 + 1).to_be_bytes().to_vec();
         let settled = *rng.pick(&[None, Some(false), Some(true)]);
-        let abort_at = if rng.chance(1, 8) && n_frames > 1 { Some(rng.range(1, n_frames as u64 - 1) as usize) } else { None };
+        let abort_at = if rng.chance(1, 6) { Some(rng.below(n_frames as u64) as usize) } else { None };
         let contradict_at = if abort_at.is_none() && rng.chance(1, 10) && n_frames > 1 { Some(rng.range(1, n_frames as u64 - 1) as usize) } else { None };
         let mut prev = 0;
         for k in 0..n_frames {
@@ -90,8 +90,12 @@ fn gen_case(rng: &mut Rng) -> Case {
                 other_link: false,
             };
             if abort_at == Some(k) {
+                // the abort frame: its `more` flag and its payload mean nothing
                 f.aborted = true;
-                f.more = false;
+                f.more = rng.chance(1, 2);
+                if rng.chance(1, 2) {
+                    f.payload = (0..rng.below(20)).map(|_| rng.next() as u8).collect();
+                }
                 frames.push(f);
                 break;
             }
